@@ -46,6 +46,7 @@ func main() {
 		syscall.Setrlimit(syscall.RLIMIT_AS, &lim)
 	}
 	if len(os.Args) >= 2 && os.Args[1] == "refserver" {
+		vs.SetDegraded(degraded())
 		refServer()
 		return
 	}
@@ -58,6 +59,7 @@ func main() {
 		}
 		return
 	}
+	vs.SetDegraded(degraded())
 	if msg := checkCatalogue(); msg != "" {
 		fmt.Println("MACHINERY-TROUBLE C10: " + msg)
 		os.Exit(2)
